@@ -279,9 +279,12 @@ class ImplicitFuncComp(ImplicitComponent):
                 tangents = self._get_tangents(invals, 'fwd', coloring, argnums,
                                               trans=self._get_jac2func_inds(self._inputs,
                                                                             self._outputs))
-                j = [np.asarray(a).reshape((shape_to_len(a.shape[:-1]), a.shape[-1]))
-                     for a in jac_forward(self._apply_nonlinear_func_jax, argnums,
-                                          tangents)(*invals)]
+                res = jac_forward(self._apply_nonlinear_func_jax, argnums, tangents)(*invals)
+                if not isinstance(res, (tuple, list)):
+                    # single residual returned as a bare array: iterating over it would split
+                    # its first axis (and fails for a 0-d residual)
+                    res = (res,)
+                j = [np.asarray(a).reshape((-1, np.shape(a)[-1])) for a in res]
                 j = coloring._expand_jac(np.vstack(j), 'fwd').toarray()
             else:
                 tangents = self._get_tangents(invals, 'fwd', coloring, argnums)
